@@ -1707,6 +1707,50 @@ done:
 	return ok;
 }
 
+/* (Q, hash, r, s) such that the point R recomputed by the verifier has an affine
+ * X coordinate in [n, p-1]: r = X - n is the valid value (ECDSA reduces X modulo
+ * n), r = X is out of range.  Honest signing reaches this with probability
+ * about (p-n)/p (2^-128 on P-256), so it is crafted: pick X = n + j on the
+ * curve, s and e at random, Q = (s*R - e*G)/r. */
+static int
+craft_x_above_n(curve_t *c, unsigned char *q, BIGNUM *r, BIGNUM *s, BIGNUM *X, unsigned char *hv, size_t *hl)
+{
+	BIGNUM *d = BN_new(), *e = BN_new(), *t = BN_new(), *u = BN_new();
+	EC_POINT *R = EC_POINT_new(c->g), *Q = EC_POINT_new(c->g);
+	int ok = 0, tries;
+	BN_sub(d, c->p, c->n);
+	if (BN_is_negative(d) || BN_is_zero(d)) goto done;
+	for (tries = 0; tries < 64; tries ++) {
+		uint32_t v = vf_below(&rng, 4);
+		if (v == 0) BN_set_word(t, vf_below(&rng, 16));             /* X = n + small */
+		else if (v == 1) { BN_copy(t, d); BN_sub_word(t, 1 + vf_below(&rng, 16)); }   /* X = p - small */
+		else { unsigned char rb[80]; vf_bytes(&rng, rb, c->plen + 8); BN_bin2bn(rb, (int)c->plen + 8, t); BN_mod(t, t, d, bctx); }
+		BN_add(X, c->n, t);
+		ERR_clear_error();
+		if (EC_POINT_set_compressed_coordinates(c->g, R, X, (int)(vf_u32(&rng) & 1), bctx) != 1) { ERR_clear_error(); continue; }
+		BN_sub(r, X, c->n);
+		if (BN_is_zero(r)) continue;
+		rand_scalar(s, c); rand_scalar(e, c);
+		/* Q = r^-1 * (s*R - e*G) = (-e/r)*G + (s/r)*R */
+		HASSERT(BN_mod_inverse(t, r, c->n, bctx) != NULL, "craft-inv");
+		BN_mod_mul(u, s, t, c->n, bctx);
+		BN_mod_mul(t, e, t, c->n, bctx);
+		BN_sub(t, c->n, t);
+		HASSERT(EC_POINT_mul(c->g, Q, t, R, u, bctx) == 1, "craft-mul");
+		if (EC_POINT_is_at_infinity(c->g, Q)) continue;
+		pt_encode(c, Q, q);
+		*hl = c->nlen;
+		BN_lshift(t, e, (int)(8 * c->nlen) - c->nbits);
+		BN_bn2binpad(t, hv, (int)c->nlen);
+		HASSERT(ref_verify(c, Q, hv, *hl, r, s), "crafted-does-not-verify");
+		ok = 1;
+		break;
+	}
+done:
+	BN_free(d); BN_free(e); BN_free(t); BN_free(u); EC_POINT_free(R); EC_POINT_free(Q);
+	return ok;
+}
+
 /* value-level mutations of a valid (r, s, hash, Q).  Fills r2, s2, hv2/hl2, q2;
  * returns class name */
 #define N_VALMUT 22
@@ -1864,6 +1908,25 @@ ecdsa_case(ecdsa_env *E, long long idx, int nverify, int nmut)
 			next_verifier(E, &im, &ev, -1);
 			judge_values(E, im, ev, qb, c->ptlen, hv2, hl2, r2, s2, 1, 0, "valid-anyhashlen", idx);
 		}
+	}
+
+	/* ---- crafted: x(R) in [n, p-1].  r = x - n verifies, r = x does not */
+	if ((idx % 4) == 1) {
+		BIGNUM *X = BN_new();
+		if (craft_x_above_n(c, q2, r2, s2, X, hv2, &hl2)) {
+			const impl_t *im; const ecdsa_t *ev;
+			int z;
+			vf_stat("crafted_x_above_n", 1);
+			for (z = 0; z < 2; z ++) {
+				next_verifier(E, &im, &ev, -1);
+				judge_values(E, im, ev, q2, c->ptlen, hv2, hl2, r2, s2, 1, (int)vf_below(&rng, 3), "x(R)>=n:r=x-n", idx);
+			}
+			next_verifier(E, &im, &ev, -1);
+			judge_values(E, im, ev, q2, c->ptlen, hv2, hl2, X, s2, 0, (int)vf_below(&rng, 3), "x(R)>=n:r=x", idx);
+		} else {
+			vf_stat("crafted_x_above_n_unavailable", 1);
+		}
+		BN_free(X);
 	}
 
 	/* ---- mutated signatures */
